@@ -9,7 +9,7 @@
    corollary at the end (the only statement here depending on the stdlib Reals axioms). *)
 From Coq Require Import Qround Qabs.
 From CNV Require Import Base.Prelude Base.Str Gen.CallDefaults Model.Call Model.Threshold Model.Baf
-  Spec.CallThreshold Proofs.CallNum Proofs.Call Proofs.CallThreshold Proofs.CallThresholdDefaults.
+  Spec.CallThreshold Proofs.CallNum Proofs.Call Proofs.CallThreshold Proofs.CallThresholdDefaults Gen.FnCall Proofs.FnCall.
 
 Local Open Scope Z_scope.
 
@@ -144,3 +144,16 @@ From CNV Require Base.RealFacts.
 Corollary C02_real_corollary_exp2_contract :
   RealFacts.exp2_contract RealFacts.exp2 /\ (3 / 2 < RealFacts.exp2 (3 / 5))%R.
 Proof. exact (conj RealFacts.exp2_contract_real RealFacts.exp2_3_5). Qed.
+
+(* ---- source tie: rescale_baf and _reference_copies_pure as translated from the Python
+   source on every run (Gen/FnCall.v) are the model functions used above. *)
+Theorem C02_source_rescale_baf :
+  forall p b, match rescale_baf p (Some b) with
+              | Some t => (fn_rescale_baf p b normal_baf == t)%Q
+              | None => False
+              end.
+Proof. exact fn_rescale_baf_eq. Qed.
+
+Theorem C02_source_ref_pure :
+  forall chrom k hapx, fn_reference_copies_pure chrom k hapx = ref_pure chrom k hapx.
+Proof. exact fn_ref_pure_eq. Qed.
